@@ -296,6 +296,15 @@ impl Metadata {
     pub fn len(&self) -> u64 {
         self.len
     }
+    pub fn is_empty(&self) -> bool {
+        self.len == 0
+    }
+    pub fn is_file(&self) -> bool {
+        true
+    }
+    pub fn is_dir(&self) -> bool {
+        false
+    }
 }
 
 struct SimHandle {
@@ -421,6 +430,34 @@ impl File {
                 Ok(Metadata {
                     len: h.data.lock().unwrap().len() as u64,
                 })
+            }
+        }
+    }
+}
+
+// Further `std::fs::File` methods, so that a change which reaches for them still builds under the
+// seam. The sim disk has no volatile cache below "handed to the file": syncing is a counted no-op.
+impl File {
+    pub fn sync_all(&self) -> io::Result<()> {
+        match &self.0 {
+            Inner::Real(f) => f.sync_all(),
+            Inner::Sim(_) => {
+                io_point();
+                with(|w| *w.probes.entry("fsync_calls").or_insert(0) += 1);
+                Ok(())
+            }
+        }
+    }
+    pub fn sync_data(&self) -> io::Result<()> {
+        self.sync_all()
+    }
+    pub fn set_len(&self, size: u64) -> io::Result<()> {
+        match &self.0 {
+            Inner::Real(f) => f.set_len(size),
+            Inner::Sim(h) => {
+                io_point();
+                h.data.lock().unwrap().resize(size as usize, 0);
+                Ok(())
             }
         }
     }
